@@ -365,6 +365,22 @@ fn check_one<CS: BbsCiphersuite>(rep: &Report, ck: &str, c: &Case) -> CheckResul
                 b[off..off + pat.len()].copy_from_slice(pat);
                 b
             };
+            // the same object in its other standard form: an uncompressed point spliced in place of the compressed one
+            if kind == 1 {
+                if let Some(pt) = Option::<G1Affine>::from(G1Affine::from_compressed(honest[off..off + 48].try_into().unwrap())) {
+                    let mut b = honest[..off].to_vec();
+                    b.extend_from_slice(&pt.to_uncompressed());
+                    b.extend_from_slice(&honest[off + 48..]);
+                    forbidden(&b, "uncompressed-point")?;
+                }
+            } else if kind == 2 {
+                if let Some(pt) = Option::<G2Affine>::from(G2Affine::from_compressed(honest[off..off + 96].try_into().unwrap())) {
+                    let mut b = honest[..off].to_vec();
+                    b.extend_from_slice(&pt.to_uncompressed());
+                    b.extend_from_slice(&honest[off + 96..]);
+                    forbidden(&b, "uncompressed-point")?;
+                }
+            }
             match kind {
                 0 => {
                     for (nm, pat) in &sbad {
@@ -400,6 +416,27 @@ fn check_one<CS: BbsCiphersuite>(rep: &Report, ck: &str, c: &Case) -> CheckResul
                 }
             }
         }
+        if codec == Codec::Proof {
+            // several points outside the prime-order subgroup at once, chosen so that they cancel in a sum
+            let q = torsion_g1((c.seed % 3) as usize);
+            let enc1 = |p: G1Projective| p.to_affine().to_compressed();
+            let hp = |off: usize| G1Projective::from(Option::<G1Affine>::from(G1Affine::from_compressed(honest[off..off + 48].try_into().unwrap())).unwrap());
+            for (nm, pts) in [
+                ("torsion-pair:Abar=Q,Bbar=-Q", [Some(q), Some(-q), None]),
+                ("torsion-pair:Abar=Q,D=-Q", [Some(q), None, Some(-q)]),
+                ("torsion-pair:Bbar=Q,D=-Q", [None, Some(q), Some(-q)]),
+                ("torsion-triple:-2Q,Q,Q", [Some(-q.double()), Some(q), Some(q)]),
+                ("torsion-shifted:Abar+Q,Bbar-Q", [Some(hp(0) + q), Some(hp(48) - q), None]),
+            ] {
+                let mut b = honest.clone();
+                for (i, p) in pts.iter().enumerate() {
+                    if let Some(p) = p {
+                        b[48 * i..48 * i + 48].copy_from_slice(&enc1(*p));
+                    }
+                }
+                forbidden(&b, nm.split(':').next().unwrap())?;
+            }
+        }
         rep.nontrivial(ck, &json!({"codec": codec, "suite": c.suite.name(), "fp": hex::encode(&honest[..16.min(honest.len())])}));
     }
     // identity public key in coordinate form
@@ -423,7 +460,117 @@ fn check_one<CS: BbsCiphersuite>(rep: &Report, ck: &str, c: &Case) -> CheckResul
     Ok(())
 }
 
+/// Single-threaded sequences: every variant is decoded right after the honest encoding it derives from (so any
+/// "last decoded object" state in the library is primed for it), with no other thread of the harness running.
+fn primed_one<CS: BbsCiphersuite>(rep: &Report, ck: &str, c: &Case) -> CheckResult {
+    let cj = |extra: Value| json!({"case": c, "detail": extra});
+    let kp = keypair::<CS>(&c.key).map_err(|e| Fail { check: ck.into(), site: "keygen".into(), msg: format!("{:?}", e), case: cj(json!(null)) })?;
+    let (sk, pk) = (kp.private_key(), kp.public_key());
+    let msgs: Vec<Vec<u8>> = (0..c.u + 1).map(|i| format!("m{}-{}", i, c.seed).into_bytes()).collect();
+    let cm: Vec<Vec<u8>> = (0..c.m).map(|i| format!("c{}-{}", i, c.seed).into_bytes()).collect();
+    let sig = Signature::<BBSplus<CS>>::sign(Some(&msgs), sk, pk, Some(b"h")).unwrap();
+    let proof = PoKSignature::<BBSplus<CS>>::proof_gen(pk, &sig.to_bytes(), Some(b"h"), None, Some(&msgs), Some(&[0usize][..])).unwrap();
+    let (com, _bf) = Commitment::<BBSplus<CS>>::commit(Some(&cm)).unwrap();
+    let mut st = (c.seed as u64) << 4 | 9;
+    // (a) public-key coordinates: prime with the octet decoder or the coordinate decoder, then present altered coordinates
+    let (x, y) = pk.to_coordinates();
+    let p = hex::decode(P_HEX).unwrap();
+    let mut variants: Vec<(String, [u8; 96], [u8; 96])> = vec![];
+    for bit in 0..768usize {
+        if splitmix(&mut st) % 768 < 64 || bit >= 760 || bit < 8 {
+            let mut y2 = y;
+            y2[bit / 8] ^= 1 << (bit % 8);
+            variants.push((format!("y-bit-{}", bit), x, y2));
+        }
+        if splitmix(&mut st) % 768 < 24 {
+            let mut x2 = x;
+            x2[bit / 8] ^= 1 << (bit % 8);
+            variants.push((format!("x-bit-{}", bit), x2, y));
+        }
+    }
+    for half in 0..2 {
+        // y.c1 or y.c0 replaced by random octets of the same leading nibble, by p, by 2^384 - 1
+        let r = half * 48..half * 48 + 48;
+        let mut y2 = y;
+        fill_random(splitmix(&mut st), &mut y2[r.clone()]);
+        y2[r.start] = y[r.start];
+        variants.push((format!("y-half-{}-random", half), x, y2));
+        let mut y3 = y;
+        y3[r.clone()].copy_from_slice(&p);
+        variants.push((format!("y-half-{}=p", half), x, y3));
+        let mut y4 = y;
+        y4[r.clone()].copy_from_slice(&[0xffu8; 48]);
+        variants.push((format!("y-half-{}=ff", half), x, y4));
+    }
+    {
+        // the negated point is a different valid key: accepted or not, it must not decode to this key
+        let neg = (-G2Projective::from(Option::<G2Affine>::from(G2Affine::from_compressed(&pk.to_bytes())).unwrap())).to_affine().to_uncompressed();
+        variants.push(("negated".into(), neg[..96].try_into().unwrap(), neg[96..].try_into().unwrap()));
+        variants.push(("swapped-x-y".into(), y, x));
+    }
+    for prime in 0..3 {
+        for (how, x2, y2) in &variants {
+            match prime {
+                0 => drop(BBSplusPublicKey::from_bytes(&pk.to_bytes())),
+                1 => drop(BBSplusPublicKey::from_coordinates(&x, &y)),
+                _ => {}
+            }
+            rep.eval(ck, 1);
+            if let Ok(k) = BBSplusPublicKey::from_coordinates(x2, y2) {
+                let (xr, yr) = k.to_coordinates();
+                if &xr != x2 || &yr != y2 {
+                    return rep.fail(
+                        ck,
+                        "non-canonical:Pk-coordinates",
+                        format!("from_coordinates accepts ({}) coordinates that re-encode differently, primed by {}", how, ["from_bytes", "from_coordinates", "nothing"][prime]),
+                        cj(json!({"how": how, "prime": prime, "x": hex::encode(x2), "y": hex::encode(y2)})),
+                    );
+                }
+                rep.class("accepted-variant:Pk-coordinates");
+            }
+        }
+    }
+    rep.nontrivial(ck, &json!({"codec": "Pk-coordinates", "suite": c.suite.name(), "fp": hex::encode(&x[..16])}));
+    // (b) octet codecs: honest decode immediately before each single-bit flip
+    let items: Vec<(Codec, Vec<u8>)> = vec![
+        (Codec::Pk, pk.to_bytes().to_vec()),
+        (Codec::Sk, sk.to_bytes().to_vec()),
+        (Codec::Sig, sig.to_bytes().to_vec()),
+        (Codec::Proof, proof.to_bytes()),
+        (Codec::Commitment, com.to_bytes()),
+    ];
+    for (codec, honest) in &items {
+        let nb = honest.len() * 8;
+        let all = matches!(codec, Codec::Pk | Codec::Sk) || c.exhaustive_flips;
+        for bit in 0..nb {
+            if !all && splitmix(&mut st) % (nb as u64) >= 160 {
+                continue;
+            }
+            let mut b = honest.clone();
+            b[bit / 8] ^= 1 << (bit % 8);
+            let _ = decode_encode::<CS>(*codec, honest);
+            rep.eval(ck, 1);
+            if let Some(re) = decode_encode::<CS>(*codec, &b) {
+                if re != b {
+                    return rep.fail(
+                        ck,
+                        &format!("non-canonical:{:?}:primed-bit-flip", codec),
+                        format!("{:?}: right after the honest encoding was decoded, octets with bit {} flipped are accepted and re-encode differently", codec, bit),
+                        cj(json!({"codec": codec, "octets": hex::encode(&b), "bit": bit})),
+                    );
+                }
+                rep.class(&format!("accepted-variant:{:?}", codec));
+            }
+        }
+        rep.nontrivial(ck, &json!({"codec": codec, "suite": c.suite.name(), "primed": true, "fp": hex::encode(&honest[..16.min(honest.len())])}));
+    }
+    Ok(())
+}
+
 fn check(rep: &Report, ck: &str, c: &Case) -> CheckResult {
+    if ck == "primed-sequences" {
+        return with_suite!(c.suite, CS => primed_one::<CS>(rep, ck, c));
+    }
     with_suite!(c.suite, CS => check_one::<CS>(rep, ck, c))
 }
 
@@ -441,6 +588,10 @@ pub fn run(ctx: &Ctx, rep: &Report) -> Meta {
             });
         }
     }
+    // single-threaded first: nothing else of the harness runs while these sequences are evaluated
+    let seq: Vec<Case> = ex.iter().step_by(ctx.tier.pick(2, 1)).map(|c| Case { exhaustive_flips: ctx.tier == Tier::Thorough, ..c.clone() }).collect();
+    let one = Ctx { prop: ctx.prop.clone(), tier: ctx.tier, seed: ctx.seed, workers: 1 };
+    par_items(&one, rep, "primed-sequences", &seq, |c| check(rep, "primed-sequences", c));
     par_items(ctx, rep, "exhaustive-bit-flips", &ex, |c| check(rep, "exhaustive-bit-flips", c));
     if !rep.aborted() {
         rep.exhaustive("every single-bit flip, every extension by 1..=64 octets and every truncation of each honest encoding of the exhaustive-bit-flips shapes".into());
@@ -453,9 +604,9 @@ pub fn run(ctx: &Ctx, rep: &Report) -> Meta {
     Meta {
         rule: "objects produced by the API (keys from generate / random, signatures, blind signatures, proofs with U = 0..4, commitments with M = 0..4, ZKPoK, blind factors, message scalars); \
                relation (1) decode(encode(x)) = x for octets, public-key coordinates and serde_json; relation (2) on honest encodings, single-bit flips (all bits in exhaustive-bit-flips, 48 sampled otherwise), \
-               whole-scalar extensions / truncations, other valid points, r-1, 0: decode(b) = Ok(x) implies encode(x) = b; relation (3) forbidden classes are rejected: trailing bytes 1..=64, every truncation, \
+               whole-scalar extensions / truncations, other valid points, r-1, 0: decode(b) = Ok(x) implies encode(x) = b; relation (3) forbidden classes are rejected: trailing bytes 1..=64, every truncation, the uncompressed form of a point spliced in place of the compressed one, several points of cofactor order that cancel in a sum (Abar = Q, Bbar = -Q and the like), \
                scalar in {r, r+1, r+2^32, 2^256-1}, points with x >= p, off-curve, on-curve-but-outside-the-subgroup (found by search and classified with from_compressed_unchecked + is_torsion_free), bad flag combinations, \
-               identity as public key (compressed and coordinates), as signature point, as proof point, e = 0; non-trivial = (codec, object) with its derived strings; evaluations = decode/encode judgements"
+               identity as public key (compressed and coordinates), as signature point, as proof point, e = 0; primed-sequences (one thread, nothing else running): the honest key decoded by from_bytes / from_coordinates / not at all, then coordinates with single bits of y or x flipped, halves of y replaced by random octets, p or ff..ff, the negated point, x and y exchanged - accepted coordinates must re-encode to themselves - and every (160 sampled for long encodings) single-bit flip decoded right after its honest encoding; non-trivial = (codec, object) with its derived strings; evaluations = decode/encode judgements"
             .into(),
         assumptions: vec![
             "JSON is held to relation (1) only (JSON text is not canonical by nature)".into(),
